@@ -103,6 +103,18 @@ class _IterRaises(object):
         raise ValueError("this iterable cannot be iterated")
 
 
+class OperandFailed(Exception):
+    """raised by an operand iterator (a class of its own: the pure-Python
+    mapping update() translates ValueError on purpose)"""
+
+
+def _gen_raises(items):
+    """an iterator that delivers the items and then fails"""
+    for x in items:
+        yield x
+    raise OperandFailed("the iterator failed after %d items" % len(items))
+
+
 def _operand_(dom, form, keyspecs, impl, valspecs=None):
     # operands that are no iterables at all (or refuse to be iterated)
     if form == "noniter-int":
@@ -118,6 +130,8 @@ def _operand_(dom, form, keyspecs, impl, valspecs=None):
         return tuple(ks)
     if form == "gen":
         return iter(list(ks))
+    if form == "gen-raises":
+        return _gen_raises(list(ks))
     if form == "pyset":
         # the iteration order of a set of ints does not depend on
         # PYTHONHASHSEED; for other keys it would, so they come as a dict
@@ -156,6 +170,8 @@ def _pairs_(dom, form, pairs, impl):
         return d
     if form == "gen":
         return iter(ps)
+    if form == "gen-raises":
+        return _gen_raises(ps)
     if form in ("Bucket", "BTree"):
         return dom.cls(form, impl)(ps)
     raise ValueError(form)
@@ -284,7 +300,7 @@ def _apply(c, op, dom, impl, kind):
     if name == "sgetitem":
         return c[op[1]]
     if name == "isdisjoint":
-        arg = _operand(dom, op[2], op[1], impl)
+        arg = c if op[2] == "self" else _operand(dom, op[2], op[1], impl)
         _pre()
         return bool(c.isdisjoint(arg))
     if name == "ctor":
@@ -489,6 +505,8 @@ class Model(object):
                 return dom.key(ks[i])
             raise _ModelExc("IndexError")
         if name == "isdisjoint":
+            if op[2] == "self":
+                return not d
             return not (set(d) & set(op[1]))
         if name == "ctor":
             if self.mapping:
